@@ -446,10 +446,18 @@ def check_C07(chk):
         if ntaint < 50:
             raise MachineryError("taint instrumentation inactive (valgrind client requests not counted)")
         first = re.search(r'(Conditional jump or move depends on uninitialised value\(s\)|Use of uninitialised value of size \d+)(\n==\d+==.*){1,6}', logs)
+        flagged_dec = [e for e in evs if e.get('taint') and e.get('e') in ('Dec', 'DecTag', 'CheckTag')]
+        if flagged_dec and not hasattr(chk, '_verdict_adj'):
+            # memcheck reported inside a decrypt: is it only the (public) accept/reject verdict? ask the second observer
+            chk.log(f"memcheck reports inside {len(flagged_dec)} decrypt/check_tag calls: adjudicating with the address-trace observer")
+            chk._verdict_adj = lackey_differential(chk, r, only=('dec', 'checktag'), judge=False)
+            chk.cov['verdict_branch_adjudicated'] = chk._verdict_adj
         for e in evs:
             e['id'] = f"{name}:{e.get('id')}"
             if e.get('taint'):
                 e['where'] = first.group(0)[:600] if first else ''
+                if e.get('e') in ('Dec', 'DecTag', 'CheckTag') and getattr(chk, '_verdict_adj', False):
+                    e['verdictonly'] = 1
         judge_o(chk, 'TV_Obs', split_executions(evs), f"{name}: ")
         if len(chk.cov['samples']) < 3:
             chk.sample(trim([e for e in evs if e.get('e') == 'Dec'][3], 8))
@@ -468,7 +476,7 @@ def check_C07(chk):
                      "the assembly back ends are covered by the ISA models of C05, not here"])
 
 
-def lackey_differential(chk, r):
+def lackey_differential(chk, r, only=None, judge=True):
     """2-safety, observed: for each public shape the instruction-address / data-address trace inside the library must
     not depend on the secrets (valgrind lackey on the -O3 objects; thorough tier)."""
     sh(f"gcc -O2 -o {chk.wd}/lkfilter {VERIF}/harness/lkfilter.c", check=True)
@@ -531,6 +539,8 @@ def lackey_differential(chk, r):
             return dict(e='Obs', id=f"{api}:{pub}:{sec}", api=api, pub=pub, sec=sec, n=int(n), h=h)
         except Exception:
             return dict(e='Fault', id=f"{api}:{pub}:{sec}", op='lackey', sig=p.returncode, buf='none', rel=0)
+    if only:
+        jobs = [j for j in jobs if j[0].startswith(only)]
     with ThreadPoolExecutor(NCPU) as ex:
         evs = list(ex.map(one, jobs))
     if any(e['e'] == 'Obs' and e['n'] < 50 for e in evs):
@@ -542,7 +552,14 @@ def lackey_differential(chk, r):
             raise MachineryError("lackey observer is not deterministic on this host; differential not usable")
     chk.cov['lackey_executions'] = len(evs)
     chk.cov['lackey_shapes'] = len({(e.get('api'), e.get('pub')) for e in evs})
+    if not judge:
+        res = validate(chk.wd, 'TV_Leak', [[{"e": "Reset", "id": "lk"}] + evs], shards=1)
+        if res['errors']:
+            raise MachineryError("TV_Leak failed: " + res['errors'][0][:800])
+        chk.cov['states'] += res['states']; chk.cov['transitions'] += res['transitions']
+        return len(res['mismatches']) == 0
     judge_o(chk, 'TV_Leak', [[{"e": "Reset", "id": "lk"}] + evs], 'lackey: ')
+    return True
 
 
 # ----------------------------------------------------------------------------- C19
